@@ -7,12 +7,13 @@ package main
 import (
 	"go/ast"
 	"go/types"
+	"slices"
 	"strings"
 )
 
 type switchBlock struct {
 	stmt     *ast.IfStmt
-	optLit   *ast.FuncLit
+	optLit   ast.Node // the first-set function: a closure of the block, or a function/method of the package
 	problems []string
 }
 
@@ -36,15 +37,68 @@ func findSwitchBlock(r *Repo) *switchBlock {
 		sb.problems = append(sb.problems, "the `if t._switch` block was not found in Compile")
 		return sb
 	}
+	isFirstSetSig := func(sig *types.Signature) bool {
+		return sig != nil && sig.Params().Len() == 1 && sig.Results().Len() == 2 &&
+			strings.HasSuffix(sig.Params().At(0).Type().String(), "node") &&
+			types.TypeString(sig.Results().At(0).Type(), nil) == "bool" &&
+			strings.HasSuffix(sig.Results().At(1).Type().String(), "set.Set")
+	}
 	ast.Inspect(sb.stmt.Body, func(n ast.Node) bool {
 		if fl, ok := n.(*ast.FuncLit); ok && sb.optLit == nil {
-			if sig, ok := p.TypesInfo.Types[fl].Type.(*types.Signature); ok && sig.Params().Len() == 1 && sig.Results().Len() == 2 &&
-				strings.HasSuffix(sig.Results().At(1).Type().String(), "set.Set") {
+			if sig, ok := p.TypesInfo.Types[fl].Type.(*types.Signature); ok && isFirstSetSig(sig) {
 				sb.optLit = fl
 			}
 		}
 		return true
 	})
+	if sb.optLit == nil {
+		// the computation may live in functions or methods of the package: the one with the
+		// first-set signature that is entered from outside the family (the others are its cases)
+		cands := map[types.Object]*ast.FuncDecl{}
+		for _, f := range p.Syntax {
+			for _, d := range f.Decls {
+				if md, ok := d.(*ast.FuncDecl); ok && md.Body != nil {
+					if o, ok := p.TypesInfo.Defs[md.Name].(*types.Func); ok && isFirstSetSig(o.Type().(*types.Signature)) {
+						cands[o] = md
+					}
+				}
+			}
+		}
+		var entries []*ast.FuncDecl
+		for _, f := range p.Syntax {
+			for _, d := range f.Decls {
+				md, ok := d.(*ast.FuncDecl)
+				if !ok || md.Body == nil {
+					continue
+				}
+				if o := p.TypesInfo.Defs[md.Name]; o != nil && cands[o] != nil {
+					continue // a member of the family
+				}
+				ast.Inspect(md.Body, func(n ast.Node) bool {
+					var id *ast.Ident
+					switch x := n.(type) {
+					case *ast.SelectorExpr:
+						id = x.Sel
+					case *ast.Ident:
+						id = x
+					}
+					if id != nil {
+						if c := cands[p.TypesInfo.Uses[id]]; c != nil && !slices.Contains(entries, c) {
+							entries = append(entries, c)
+						}
+					}
+					return true
+				})
+			}
+		}
+		if len(entries) == 1 {
+			sb.optLit = entries[0]
+		} else if len(cands) == 1 {
+			for _, c := range cands {
+				sb.optLit = c
+			}
+		}
+	}
 	if sb.optLit == nil {
 		sb.problems = append(sb.problems, "the FIRST-set closure func(*node) (bool, *set.Set) was not found")
 	}
